@@ -54,7 +54,12 @@ func GoBatch(progs []GoProg) ([]GoResult, error) {
 			}
 		}
 		sb.WriteString(")\n\nvar w__ io.Writer\n\nfunc println(a ...any) { fmt.Fprintln(w__, a...) }\n\n")
-		sb.WriteString(strings.Replace(p.Src, "func main()", "func Main__()", 1))
+		src := strings.Replace(p.Src, "func main()", "func Main__()", 1)
+		// the program's own fmt output goes to the capture buffer as well
+		src = strings.ReplaceAll(src, "fmt.Println(", "fmt.Fprintln(w__, ")
+		src = strings.ReplaceAll(src, "fmt.Print(", "fmt.Fprint(w__, ")
+		src = strings.ReplaceAll(src, "fmt.Printf(", "fmt.Fprintf(w__, ")
+		sb.WriteString(src)
 		sb.WriteString("\n\nfunc Run(out io.Writer) (res string) {\n\tw__ = out\n\tdefer func() {\n\t\tif r := recover(); r != nil {\n\t\t\tres = \"panic\"\n\t\t}\n\t}()\n\tMain__()\n\treturn \"ok\"\n}\n")
 		if err := os.WriteFile(filepath.Join(d, "p.go"), []byte(sb.String()), 0o644); err != nil {
 			return nil, err
@@ -150,10 +155,15 @@ func GoBatch(progs []GoProg) ([]GoResult, error) {
 		res[i] = GoResult{Status: f[1], Out: string(data[:ln])}
 		data = data[ln:]
 	}
+	lost := 0
 	for i := range res {
 		if res[i].Status == "" {
 			res[i].Status = "timeout"
+			lost++
 		}
+	}
+	if lost > 3 && lost*10 > len(res) {
+		return nil, fmt.Errorf("Go toolchain oracle produced no result for %d of %d programs (a program wrote to stdout directly, crashed the batch or looped)", lost, len(res))
 	}
 	return res, nil
 }
